@@ -39,6 +39,7 @@ STATES = {
 }
 
 BAD = {"int": "bad!", "float": "1.5x", "bool": "maybe"}
+RANGE = {"int": "99999999999999999999999", "float": "1e999"}
 GOOD = {"int": ["1", "2", "3", "4"], "float": ["0.5", "1", "2.5", "4"], "bool": ["on", "no", "yes", "off"], "str": ["g1", "g2", "g3", "g4"]}
 TYPED = [("i", "int", False), ("f", "float", False), ("b", "bool", False), ("il", "int", True), ("fl", "float", True), ("bl", "bool", True),
          ("ni", "int", False), ("el", "int", True), ("tm=a|zl", "int", True), ("single|x", "int", False)]
@@ -53,6 +54,13 @@ def refusing_calls():
                 texts = [GOOD[kind][k] for k in range(n)]
                 texts[p] = BAD[kind]
                 C.append(("setmulti %s bad@%d/%d" % (path, p, n), [["setmulti", 1, H(path), n] + [H(t) for t in texts]], path))
+        if kind in RANGE:
+            for n in (1, 2, 3):
+                texts = [GOOD[kind][k] for k in range(n)]
+                texts[-1] = RANGE[kind]
+                C.append(("setmulti %s out-of-range@%d/%d" % (path, n - 1, n), [["setmulti", 1, H(path), n] + [H(t) for t in texts]], path))
+            C.append(("setopt %s out-of-range-text" % path, [["getopt", 1, H(path), 9], ["setopt", 1, 9, H(RANGE[kind])]], path))
+            C.append(("setopt %s negative-out-of-range-text" % path, [["getopt", 1, H(path), 9], ["setopt", 1, 9, H("-" + RANGE[kind])]], path))
         C.append(("setmulti %s zero-values" % path, [["setmulti", 1, H(path), 0]], path))
         C.append(("setopt %s bad-text" % path, [["getopt", 1, H(path), 9], ["setopt", 1, 9, H(BAD[kind])]], path))
         C.append(("setopt %s empty-text" % path, [["getopt", 1, H(path), 9], ["setopt", 1, 9, H("")]], path) if kind != "bool" else
